@@ -18,8 +18,8 @@ PROPS["C05"] = dict(
     coq_targets=["Farm/Check.vo"],
     check_module="Farm.Check",
     check_fn="check_case_C05",
-    streams=[dict(name="main", quick=200, thorough=6000)],
-    coq_shard=14,
+    streams=[dict(name="main", quick=128, thorough=4000)],
+    coq_shard=8,
     rule=_RULE,
     codes={1: "stakes-do-not-sum-to-pool-total", 2: "escrow-differs-from-stakes-plus-budgets",
            3: "unstake-insufficient-reward-collector", 4: "unstake-principal-or-balance-wrong",
@@ -40,8 +40,8 @@ PROPS["C06"] = dict(
     coq_targets=["Farm/Check.vo"],
     check_module="Farm.Check",
     check_fn="check_case_C06",
-    streams=[dict(name="main", quick=200, thorough=6000)],
-    coq_shard=14,
+    streams=[dict(name="main", quick=128, thorough=4000)],
+    coq_shard=8,
     rule=_RULE,
     codes={10: "pool-or-rule-vanished", 11: "budget-total-wrong", 12: "remaining-not-refunded-at-end",
            13: "released-more-than-remaining", 14: "release-not-per-block-times-span-while-staked",
